@@ -25,10 +25,30 @@ def marker(ds):
     return None
 
 
+def quiesce(srv, max_s=30.0):
+    """"no edits pending and the debounce intervals have passed": a request is answered only after the handlers queued
+    before it on the fair analysis lock are done; repeat (barrier, debounce interval, barrier, quiet) until a whole
+    pass brings no new publication"""
+    end = time.time() + max_s
+    while time.time() < end:
+        with srv.cv:
+            n0 = len(srv.diags)
+        srv.request("workspace/symbol", {"query": "zz_probe"}, 30.0)
+        time.sleep(INTERVAL_MS / 1000.0 + 0.15)
+        srv.request("workspace/symbol", {"query": "zz_probe"}, 30.0)
+        srv.settle(0.4, 10.0)
+        with srv.cv:
+            if len(srv.diags) == n0:
+                return True
+    return False
+
+
 def c30_session(rep, seed, sched_seed, rounds, distinct):
     rng = random.Random(seed * 2000003 + (sched_seed or 0))
     NDISK, NURIS = 1, 3
+    NW = 3   # extra on-disk, never-opened-before files per round for the watched-files batches
     files = {f"r{r}_f{i}.lua": disk_text(i) for r in range(rounds) for i in range(NDISK)}
+    files.update({f"r{r}_w{j}.lua": disk_text(10 + j) for r in range(rounds) for j in range(NW)})
     ws = make_workspace(files, emmyrc={"diagnostics": {"diagnosticInterval": INTERVAL_MS}})
     srv = Server(ws, sched_seed=sched_seed, sched_max_ms=3)
     desc0 = {"kind": "session", "prop": "C30", "seed": seed, "sched_seed": sched_seed, "rounds": rounds}
@@ -61,8 +81,48 @@ def c30_session(rep, seed, sched_seed, rounds, distinct):
                 if g:
                     time.sleep(g)
             # no edits pending; let the debounce intervals pass
-            time.sleep(INTERVAL_MS / 1000.0 + 0.25)
-            srv.settle(0.5, 20.0)
+            if not quiesce(srv):
+                rep.count("rounds_not_quiescent_in_time")
+            # watched-files batch: ≥ 2 changed workspace files that are not open, followed within the debounce interval
+            # by an open/edit of one of them (the later task must only cancel that file's task, not the batch)
+            batch = None
+            if rng.random() < 0.6:
+                nb = rng.randrange(2, NW + 1)
+                wuris = [path_uri(os.path.join(ws, f"r{r}_w{j}.lua")) for j in range(nb)]
+                wk = []
+                for j in range(nb):
+                    counter[0] += 1
+                    wk.append(counter[0])
+                    with open(os.path.join(ws, f"r{r}_w{j}.lua"), "w") as f:
+                        f.write(text_of(counter[0], diag=True))
+                wseq = srv.seq
+                srv.notify("workspace/didChangeWatchedFiles", {"changes": [{"uri": u, "type": 2} for u in wuris]})
+                time.sleep(rng.choice([0, 0.005, INTERVAL_MS / 3000.0]))
+                counter[0] += 1
+                pick = rng.randrange(nb)
+                how = rng.choice(["o", "c"])
+                srv._send(notif_msg({"k": how, "u": 0, "text": text_of(counter[0], diag=True)}, [wuris[pick]], 1))
+                wk_final = list(wk)
+                wk_final[pick] = counter[0]
+                if not quiesce(srv):
+                    rep.count("rounds_not_quiescent_in_time")
+                batch = dict(files=nb, edited=pick, how=how, markers=wk_final)
+                rep.count("watched_batches")
+                for j, u in enumerate(wuris):
+                    with srv.cv:
+                        pj = [ds for seq, uri, ds in srv.diags if seq > wseq and uri == u]
+                    fresh = srv.request("textDocument/diagnostic", {"textDocument": {"uri": u}}, 30.0)
+                    items = ((fresh or {}).get("result") or {}).get("items")
+                    wdesc = dict(desc0, round=r, watched_batch=batch, file=j)
+                    if items is None:
+                        rep.mismatch({"what": "no pull diagnosis available for a watched file", "input": wdesc})
+                    elif not pj or norm_diags(pj[-1]) != norm_diags(items):
+                        rep.oracle_failure({"class": "watched-batch-file-not-rediagnosed",
+                                            "what": f"watched-files batch of {nb} changed files, then {how} of file {pick} within the debounce interval: "
+                                                    f"file {j}: last publication after the batch has marker {marker(pj[-1]) if pj else 'nothing published'}, "
+                                                    f"a fresh diagnosis has marker {marker(items)} (expected {wk_final[j]})", "input": wdesc})
+                    if items is not None and marker(items) != wk_final[j]:
+                        rep.mismatch({"what": f"watched file {j} is not analysed with its new content (marker {marker(items)} ≠ {wk_final[j]})", "input": wdesc})
             rep.d["evaluations"] += 1
             desc = dict(desc0, round=r, events=[{k: v for k, v in e.items() if k != "text"} for e in evs], gaps=gaps)
             shape = ",".join(f"{e['k']}{e['u']}" for e in evs)
@@ -146,6 +206,8 @@ def model_search(rep, thorough):
 def run(a, rep):
     thorough = a["tier"] == "thorough"
     rep.d["rule"] = ("a case = one round of 3–9 didOpen/didChange/didClose over 3 documents (1 on disk) with random gaps around the "
+                     "debounce interval, in 60 % of the rounds followed by a didChangeWatchedFiles batch naming 2–3 changed, not open "
+                     "workspace files and, within the debounce interval, a didOpen/didChange of one of them; "
                      f"debounce interval ({INTERVAL_MS} ms), after which the last publishDiagnostics per document is compared with a fresh "
                      "pull diagnosis (textDocument/diagnostic) of the same server; or one event list whose schedules are all explored in "
                      "the model. distinct non-trivial = distinct event shapes + explored lists")
@@ -161,7 +223,7 @@ def run(a, rep):
         else:
             c30_session(rep, inp.get("seed", 1), inp.get("sched_seed"), inp.get("rounds", 6), distinct)
         return
-    sessions = [(None, 6), (a["seed"] * 10 + 1, 6)] if not thorough else [(None, 15)] + [(a["seed"] * 10 + i, 15) for i in range(1, 5)]
+    sessions = [(None, 4), (a["seed"] * 10 + 1, 4)] if not thorough else [(None, 12)] + [(a["seed"] * 10 + i, 12) for i in range(1, 4)]
     for ss, n in sessions:
         c30_session(rep, a["seed"], ss, n, distinct)
         rep.count("sessions")
